@@ -402,8 +402,14 @@ pub fn explore(w: &World, r: usize, cfg: &L1Cfg, check_edge: &(dyn Fn(&Edge) -> 
                 }
             }
             // plain restart
-            let restarted = node.local.restarted();
-            if restarted != node.local {
+            // (the transcription only decides whether a restart can change anything at all)
+            if node.local.restarted() != node.local {
+                let restarted = bftsim::real_restart(w, r, &node.local);
+                if restarted != node.local.restarted() {
+                    // informational: the real StateMachine::start restores something else than "all durable
+                    // fields, empty caches"; consequences (if any) are for the property oracles to find
+                    *e.classes.entry("restart differs from the harness's transcription".into()).or_default() += 1;
+                }
                 let out = StepOut { local: restarted, sent: vec![], outcome: Some(Ok(())), crashed: false, blocked: false, set_state_calls: 0, deadline_expired: false, synced_blocks: 0, published: None, runner_error: None, panicked: None };
                 handle(&mut e, "process restarts".into(), InputKind::Restart, out);
             }
@@ -502,7 +508,7 @@ pub fn replay_path_with(w: &World, r: usize, cfg: &L1Cfg, path: &[String], check
     let mut log = SignedLog::default();
     for (k, d) in path.iter().enumerate() {
         if d == "process restarts" {
-            local = local.restarted();
+            local = bftsim::real_restart(w, r, &local);
             continue;
         }
         let (base, crash) = match d.split_once(" -- CRASH at durable write #") {
